@@ -308,10 +308,9 @@ theorem lexTextLoop_sat {n : Int} {l0 : Lexer} : ∀ (k : Nat) (l : Lexer) (last
       · -- eof
         obtain ⟨l2, e2, hl2, hp2, hw2, hs2⟩ := maybeEmitText_ex (l := l1.backup) (k := 0) (by lx) (by omega) (by lx)
         simp only [e2]
-        obtain ⟨l3, e3, hl3, hp3, hs3, hw3⟩ := emit_ex .tEOF (l := l2) (by lx) (by lx) (by lx)
+        obtain ⟨l3, e3, hmp3, hbad3, it, hb, ht⟩ := emit_eof_ex (l := l2) (by lx) (by lx) (by lx)
         simp only [e3]
-        obtain ⟨it, hb, ht⟩ := emit_items e3
-        exact Sat.ofSome (Post.nil ⟨it, hb, Or.inl ht⟩ (by lx))
+        exact Sat.ofSome (Post.nil ⟨it, hb, Or.inl ht⟩ ⟨by lx, by rw [hbad3]; lx⟩)
       · rename_i hE
         simp only [eof] at hE
         have hrem : l1.rem < l.rem := by simp only [Lexer.rem]; lx
